@@ -44,6 +44,7 @@ namespace sim
       std::string type_name;
       std::uint32_t b = NOPOS, bl = 0, bc = 0, e = NOPOS, el = 0, ec = 0;
       bool has_content = false;
+      bool content_ok = true;   // string_view() and string() of the node are exactly the input bytes [ b, e )
       std::uint32_t nchildren = 0;
       std::uint32_t depth = 0;
    };
@@ -67,6 +68,7 @@ namespace sim
       // tree / coverage sets
       bool have_tree = false;
       bool tree_null = true;
+      bool tree_lazy = false;  // built over a lazily tracking input: nodes carry data pointers only, no byte / line / column
       std::uint32_t tree_stack = 0;
       std::vector< TreeNode > tree;  // preorder
       std::vector< CovEntry > cov;
